@@ -23,6 +23,7 @@ PREFIXES = ["field_", "f"]
 PAIR_NAMES = ["name", "client", "client_query", "client_header", "VALUE_1", "value 1", "2", "-", "+ab", "ab!", "a b", "a_b", "a-b", "a.b", "aB", "AB", "Ab", "ab", "A_B", "a__b", "_ab", "ab_", "1a", "_1a", "a1", "A1", "ﬁ", "fi",
               "é", "É", "class", "Class", "class_", "list", "List", "self", "", "-", "_", "match", "type_", "type"]
 PAIR_NAMES = list(dict.fromkeys(PAIR_NAMES))        # a name listed twice would pair with itself (two identical names are one name, not a merge)
+CHAIN_NAMES = ["a_b", "aB", "a$B", "a-b", "a!B", "A_B", "a B", "a_B", "AB"]
 END2END = ["a²", "٣x", "x٣", "௰", "a௰", "ﱠ", "aﱠb", "·a", "a·", "℘", "ªb", "x́", "́x", "𝒳", "ǅ", "a‍b", "ß", "ſ", "İ", "ı",
            "a\ud800b", "\U000e0041", "Ⅷ", "a　b"]
 
@@ -58,6 +59,12 @@ def cases(tier):
     for pname in ("_", "-", "$", "", "__", " ", "."):
         for where in ("response", "body", "component-property", "array-items"):
             yield {"labels": [f"nested-name={pname!r}", f"where={where}"], "payload": {"mode": "nested-name", "pname": pname, "where": where}}
+    # (6) chains: three spellings of one identifier in every order (the second rename's fallback name may already be held)
+    fam = CHAIN_NAMES if tier == "thorough" else CHAIN_NAMES[:6]
+    for a, b, c in itertools.permutations(fam, 3):
+        for scope in (("attr", "attr-inherited", "query", "header", "schema") if tier == "thorough" else ("attr", "attr-inherited", "query")):
+            yield {"labels": [f"a={a!r}", f"b={b!r}", f"c={c!r}", f"scope={scope}", "chain"],
+                   "payload": {"mode": "pair", "names": [a, b, c], "scope": scope, "prefix": "field_"}}
     if tier == "thorough":
         for a, b, c in itertools.combinations(PAIR_NAMES[:16], 3):
             for scope in ("attr", "query", "schema"):
